@@ -232,15 +232,19 @@
 
 /* Trace a function call */
 static void vm_do_trace(JanetFunction *func, int32_t argc, const Janet *argv) {
+    /* argv points into the running fiber's stack. Printing can run Janet code on this fiber (when
+     * (dyn :err) is a function) and move that stack, so the whole line is put together first. */
+    JanetBuffer *line = janet_buffer(64);
     if (func->def->name) {
-        janet_eprintf("trace (%S", func->def->name);
+        janet_formatb(line, "trace (%S", func->def->name);
     } else {
-        janet_eprintf("trace (%p", janet_wrap_function(func));
+        janet_formatb(line, "trace (%p", janet_wrap_function(func));
     }
     for (int32_t i = 0; i < argc; i++) {
-        janet_eprintf(" %p", argv[i]);
+        janet_formatb(line, " %p", argv[i]);
     }
-    janet_eprintf(")\n");
+    janet_buffer_push_cstring(line, ")\n");
+    janet_eprintf("%V", janet_wrap_buffer(line));
 }
 
 /* Invoke a method once we have looked it up */
